@@ -30,7 +30,8 @@ def _gen(cfg, workers, timeout):
     out = os.path.join(SCR, "C19_gen_%d.ndjson" % os.getpid())
     if os.path.exists(out):
         os.remove(out)
-    r = tlc.run("Gen_R2C", cfg, env={"GEN_OUT": out}, timeout=timeout, workers=workers)
+    import reader_lib as rl
+    r = rl.tlc_run("Gen_R2C", cfg, env={"GEN_OUT": out}, timeout=timeout, workers=workers)
     recs = []
     if os.path.exists(out):
         with open(out) as f:
@@ -225,6 +226,65 @@ def reader_events(np, exact, rl, fsets, rnd, per_set, maxn, eid0):
     return evs
 
 
+def long_axis_events(np, exact, r2c, rnd, th, eid0):
+    """Long conversions (N ~ 1e4 .. 1e5) of every precision class.  'longreal': random data,
+    (-1)^m Re(out[m]) = x[2m] at sampled m (decided by TLC, no transform needed) and for all m (flag);
+    'longtone': a tone at integer w must come out at w - N/4."""
+    evs = []
+    Ns = [4096, 10007, 16384, 65536, 100000] if th else [10007, 16384, 65536]
+    dts = ["float32", "float16", "float64", "int16", "longdouble", "uint8"] if th else ["float32", "float16", "float64", "int16"]
+    layouts = [("rank1", lambda v: v, 0), ("cols", lambda v: np.stack([v, v[::-1]], axis=1), 0),
+               ("rows", lambda v: np.stack([v[::-1], v], axis=0), -1)]
+    k = 0
+    for N in Ns:
+        for dt in dts:
+            k += 1
+            name, build, axis = layouts[k % 3]
+            if dt.startswith("float") or dt == "longdouble":
+                v = np.array([rnd.randrange(-64, 65) for _ in range(N)], dtype=np.float64) / 64.0
+            else:
+                v = np.array([rnd.randrange(0, 100) for _ in range(N)], dtype=np.float64)
+            x = build(v).astype(dt)
+            y = r2c(x, axis=axis)
+            lane_x = x if name == "rank1" else (x[:, 0] if name == "cols" else x[1])
+            lane_y = y if name == "rank1" else (y[:, 0] if name == "cols" else y[1])
+            prec = "single" if dt in SINGLE else "double"
+            M = (N + 1) // 2
+            ms = sorted(set([0, 1, M - 1, M - 2, M - 3, M // 2] + [rnd.randrange(M) for _ in range(18)]
+                            + [rnd.randrange(M - M // 8, M) for _ in range(8)]))
+            amax = float(np.abs(v).max())
+            lg = int(np.ceil(np.log2(N)))
+            budget = (64 * (2.0 ** -23 if prec == "single" else 2.0 ** -52) * lg + 4 * N * 2.0 ** -52) * max(1.0, amax) + 2.0 ** -50
+            ok_all = False
+            if lane_y.shape == (M,):
+                sgn = np.where(np.arange(M) % 2 == 0, 1.0, -1.0)
+                ok_all = bool(np.abs(sgn * np.asarray(lane_y.real, dtype=np.float64) - np.asarray(lane_x[::2], dtype=np.float64)).max() <= budget)
+                evs.append({"id": eid0 + len(evs), "ev": "longreal", "N": N, "prec": prec, "dtype": dt, "layout": name, "outlen": int(lane_y.shape[0]),
+                            "amax": exact.fix(Fraction(amax)), "ms": ms, "xs": [exact.fix(Fraction(float(lane_x[2 * m]))) for m in ms],
+                            "ys": [exact.fix(Fraction(float(lane_y[m].real))) for m in ms],
+                            "flags": {"all_m_within_budget": ok_all, "dtype": str(y.dtype) == ("complex64" if dt == "float32" else "complex128")},
+                            "src": "long"})
+            else:
+                evs.append({"id": eid0 + len(evs), "ev": "longreal", "N": N, "prec": prec, "dtype": dt, "layout": name,
+                            "outlen": -1, "amax": exact.fix(1), "ms": [], "xs": [], "ys": [], "flags": {"shape": False}, "src": "long"})
+        for dt in ("float32", "float64"):
+            w = rnd.randrange(1, (N - 1) // 2 + 1) if 2 * ((N - 1) // 2) < N or True else 1
+            if 2 * w >= N:
+                w = (N - 1) // 2
+            phn = rnd.randrange(0, 16)
+            kk = (np.arange(N, dtype=np.int64) * w) % N                      # exact phase reduction
+            x = np.cos(2 * np.pi * (kk / N + phn / 16.0)).astype(dt)
+            y = r2c(x)
+            M = (N + 1) // 2
+            ms = sorted(set([0, 1, M - 1, M - 2] + [rnd.randrange(M) for _ in range(10)] + [rnd.randrange(M - M // 8, M) for _ in range(6)]))
+            if y.shape != (M,):
+                ms = []
+            evs.append({"id": eid0 + len(evs), "ev": "longtone", "N": N, "w": w, "ph": exact.rat(Fraction(phn, 16)), "prec": "single" if dt == "float32" else "double",
+                        "dtype": dt, "outlen": int(y.shape[0]) if y.ndim == 1 else -1, "amax": exact.fix(1), "ms": ms,
+                        "ys": [exact.cfix(complex(y[m])) for m in ms], "src": "long"})
+    return evs
+
+
 # ------------------------------------------------------------------ main
 def run(chk):
     import numpy as np
@@ -238,7 +298,7 @@ def run(chk):
     try:
         with cf.ThreadPoolExecutor(max_workers=6) as pool:
             jgen = pool.submit(_gen, "Gen_R2C_full.cfg" if th else "Gen_R2C_quick.cfg", 10, 3000)
-            jneg = pool.submit(tlc.run, "MC_R2C", "Neg_R2C_weight.cfg", workers=2, timeout=600)
+            jneg = pool.submit(rl.tlc_run, "MC_R2C", "Neg_R2C_weight.cfg", workers=2, timeout=600)
             # ---- code -> Trace: random inputs of every real dtype, rank and axis; the reader path
             maxn = 32 if th else 16
             events = random_events(np, exact, r2c, rnd, 3000 if th else 700, maxn, 0)
@@ -247,6 +307,7 @@ def run(chk):
             fsets = [written["vdifr"], written["vdifr_lsb"], samples["s_vdif"], samples["s_vdif_lsb"]]
             rev = reader_events(np, exact, rl, fsets, rnd, 12 if th else 3, 8 if not th else 16, len(events))
             events += rev
+            events += long_axis_events(np, exact, r2c, rnd, th, len(events))
             # refusals and the dtype rule
             for dt in COMPLEX_DTYPES:
                 try:
@@ -257,7 +318,7 @@ def run(chk):
                     got = type(e).__name__
                 events.append({"id": len(events), "ev": "dtype", "din": dt, "got": got, "src": "complex"})
             rnd.shuffle(events)
-            jtrace = pool.submit(rl.validate, "Trace_R2C", events, chk, batch=max(60, len(events) // 10 + 1), jobs=10, name="C19",
+            jtrace = pool.submit(rl.validate, "Trace_R2C", events, chk, batch=max(60, len(events) // 6 + 1), jobs=6, name="C19",
                                  cfg="Trace_R2C_full.cfg" if th else "Trace_R2C.cfg")
             # ---- TLC: model checking + generation
             neg = jneg.result()
@@ -289,6 +350,10 @@ def run(chk):
                     chk.violation("reader-path:%s:%s" % (e["fileset"], "+".join(failed)),
                                   "read(%d, %d) on %s is not R2C(raw[2o:2o+2n])%s: %s" % (e["o"], e["n"], e["fileset"], " conjugated" if e["cj"] else "", failed),
                                   {"kind": "reader", "fileset": e["fileset"], "o": e["o"], "n": e["n"]})
+                elif e["ev"] in ("longreal", "longtone"):
+                    chk.violation("long-axis:%s:%s:%s" % (e["ev"], e["prec"], "+".join(sorted(failed))),
+                                  "real_to_complex on %s input of length %d (%s): %s" % (e["dtype"], e["N"], e.get("layout", "tone w=%s" % e.get("w")), failed),
+                                  {"kind": "long", "ev": e["ev"], "N": e["N"], "dtype": e["dtype"]})
                 elif e["ev"] == "reader":
                     chk.violation("reader-path:%s:%s" % (e["fileset"], "+".join(failed)), "real-sampled reader %s: %s (%r)" % (e["fileset"], failed, e),
                                   {"kind": "reader", "fileset": e["fileset"], "o": e["o"], "n": e["n"]})
@@ -395,6 +460,11 @@ def replay(doc):
         b = compare(np, X.astype(c["dtype"]), r2c(X.astype(c["dtype"]), axis=c["axis"]), Y, c["dtype"], c["axis"])
         if b:
             bad.append(b[1])
+    elif c["kind"] == "long":
+        import random as _r
+        evs = [e for e in long_axis_events(np, exact, r2c, _r.Random(0), True, 0) if e["N"] == c["N"] and e["dtype"] == c["dtype"] and e["ev"] == c["ev"]]
+        rej, _ = rl.validate("Trace_R2C", evs, chk, name="replay", cfg="Trace_R2C_full.cfg")
+        bad += ["%s N=%d %s: %s" % (e["ev"], e["N"], e["dtype"], f) for e, f in rej]
     else:
         os.makedirs(SCR, exist_ok=True)
         tmp = tempfile.mkdtemp(prefix="c19-", dir=SCR)
